@@ -1,10 +1,38 @@
-import Pendulum.Drv.Util
-/-! request handler for property C12 (stub until the property is built) -/
+import Pendulum.Drv.DTUtil
+import Pendulum.Model.StartOf
+/-! C12 requests: `startof|endof <unit> <wks> <wke> <zref|d> <wall> <fold>` →
+`ok <wall> <offset> <fold> <wall2> <offset2> <fold2>` (the result and the result of applying the same
+operation to it once more) / `err <ExceptionName>`; zref `d` = a `Date` (wall = its midnight). -/
 namespace Pendulum.Drv.C12
-open Pendulum Pendulum.Drv
+open Pendulum Pendulum.Drv Pendulum.DTOps Pendulum.StartOf
 
-def handle (_zs : Zones) (ws : List String) : Option String :=
+def twice (f : V → Except DTOps.Err V) (x : V) : String :=
+  match f x with
+  | .error e => "err " ++ e.name
+  | .ok r =>
+    match f r with
+    | .error e => "err " ++ e.name
+    | .ok r2 => okInts [r.w, r.offset, b2i r.fold, r2.w, r2.offset, b2i r2.fold]
+
+def handle (zs : Zones) (ws : List String) : Option String :=
   match ws with
+  | [k, u, wks, wke, z, w, f] =>
+    if k != "startof" && k != "endof" then none else do
+    let last := k == "endof"
+    let u ← U.ofString? u
+    let wks ← wks.toInt?
+    let wke ← wke.toInt?
+    let w ← w.toInt?
+    if z == "d" then
+      match boundDate u wks wke last w with
+      | .error e => some ("err " ++ e.name)
+      | .ok r =>
+        match boundDate u wks wke last r with
+        | .error e => some ("err " ++ e.name)
+        | .ok r2 => some (okInts [r, 0, 0, r2, 0, 0])
+    else
+      let z ← parseZRef zs z
+      some (twice (bound u wks wke last) ⟨z, w, f == "1"⟩)
   | _ => none
 
 end Pendulum.Drv.C12
